@@ -20,7 +20,9 @@ import (
 	"github.com/ipfs/ipfs-cluster/state/dsstate"
 	"github.com/ipfs/ipfs-cluster/test"
 
+	hraft "github.com/hashicorp/raft"
 	libp2p "github.com/libp2p/go-libp2p"
+	p2praft "github.com/libp2p/go-libp2p-raft"
 	host "github.com/libp2p/go-libp2p-core/host"
 	peer "github.com/libp2p/go-libp2p-core/peer"
 )
@@ -134,6 +136,8 @@ func vc14GenSnapCases(r *vRand, n int, thorough bool) []vC14RaftCase {
 				op.Op = "clean"
 			case x < 35:
 				op.Op = "bare"
+			case x < 50:
+				op.Op = "more"
 			}
 			c.Snap.Ops = append(c.Snap.Ops, op)
 		}
@@ -156,6 +160,27 @@ func vc14GenSnapCases(r *vRand, n int, thorough bool) []vC14RaftCase {
 	return out
 }
 
+// write one more (newer) snapshot into the data folder without cleaning it, as a running peer's raft does
+func vc14ExtraSnapshot(df string, st state.State, index uint64, pids []peer.ID) error {
+	if err := makeDataFolder(df); err != nil {
+		return err
+	}
+	store, err := hraft.NewFileSnapshotStoreWithLogger(df, RaftMaxSnapshots, nil)
+	if err != nil {
+		return err
+	}
+	_, tr := hraft.NewInmemTransport("")
+	sink, err := store.Create(1, index, 1, makeServerConf(pids), 1, tr)
+	if err != nil {
+		return err
+	}
+	if err := p2praft.EncodeSnapshot(st, sink); err != nil {
+		sink.Cancel()
+		return err
+	}
+	return sink.Close()
+}
+
 // start a real Consensus peer on the data folder and list its state
 func vc14StartPeer(t *testing.T, cfg *Config, h host.Host, sets *vc14Sets) (es []dsstate.VC14Entry, errs string) {
 	defer func() {
@@ -164,6 +189,7 @@ func vc14StartPeer(t *testing.T, cfg *Config, h host.Host, sets *vc14Sets) (es [
 		}
 	}()
 	cfg.hostShutdown = true
+	cfg.WaitForLeaderTimeout = 120 * time.Second // a loaded machine must not turn into an alarm
 	cc, err := NewConsensus(h, cfg, inmem.New(), false)
 	if err != nil {
 		return nil, "NewConsensus: " + err.Error()
@@ -172,9 +198,9 @@ func vc14StartPeer(t *testing.T, cfg *Config, h host.Host, sets *vc14Sets) (es [
 	ctx := context.Background()
 	select {
 	case <-cc.Ready(ctx):
-	case <-time.After(60 * time.Second):
+	case <-time.After(150 * time.Second):
 		cc.Shutdown(ctx)
-		return nil, "peer not ready after 60s"
+		return nil, "peer not ready after 150s"
 	}
 	st, err := cc.State(ctx)
 	if err != nil {
@@ -259,6 +285,19 @@ func vc14DoSnapCase(t *testing.T, rig *vc14Rig, out *vOut, c vC14RaftCase) {
 				errs = append(errs, err.Error())
 			}
 			ops = append(ops, fmt.Sprintf("OSave %d", setIDs[i]))
+			nsave++
+		case "more":
+			if len(in.Sets) == 0 {
+				continue
+			}
+			i := op.Set % len(in.Sets)
+			if i < 0 {
+				i = 0
+			}
+			if err := vc14ExtraSnapshot(df, states[i], uint64(100+k), pids); err != nil {
+				errs = append(errs, "more: "+err.Error())
+			}
+			ops = append(ops, fmt.Sprintf("OMore %d", setIDs[i]))
 			nsave++
 		case "bare":
 			rig.makeFolder(df, 50+k, false)
